@@ -108,12 +108,14 @@ class Ctl(controller_nonMPI):
         return super().pfasst(local_MS_active)
 
     def send_full(self, S, level=None, add_to_stats=False):
+        STATE['comm'].append(('sendcall', S.status.slot, level, S.status.stage))
         super().send_full(S, level=level, add_to_stats=add_to_stats)
         if not S.status.last:
             STATE['sent'][(S.status.slot, level)] = (level, S.status.iter, S.status.slot)
             STATE['comm'].append(('send', S.status.slot, level, S.status.iter, id(S.levels[level].uend)))
 
     def recv_full(self, S, level=None, add_to_stats=False):
+        STATE['comm'].append(('recvcall', S.status.slot, level, S.status.stage))
         will = (not S.status.prev_done) and (not S.status.first)
         if will:
             src = S.prev.levels[level]
@@ -212,6 +214,16 @@ def run_block(c, NP, NL, KMAX, predict_type, mssdc_jac, all_to_done, nsweeps, in
             _, slot, level, same, alias = ev
             if not same or alias:
                 viol.append(('recv-value', (slot, level, same, alias)))
+    # (4b) in the stages that exchange and then sweep (fine, down, up, check) a step receives on the level it has just sent on
+    lastcall = {}
+    for ev in STATE['comm']:
+        if ev[0] == 'sendcall':
+            lastcall[ev[1]] = ev
+        elif ev[0] == 'recvcall':
+            prev = lastcall.get(ev[1])
+            if ev[3] in ('IT_FINE', 'IT_DOWN', 'IT_UP', 'IT_CHECK') and not (prev is not None and prev[0] == 'sendcall' and prev[2] == ev[2] and prev[3] == ev[3]):
+                viol.append(('recv-level', (ev[1], ev[3], 'receive on level', ev[2], 'after', prev[:4] if prev else None)))
+            lastcall[ev[1]] = ev
     # (5) callback grammar per step, (6) logged niter = number of iteration callbacks, budget
     niters = [v for _, v in get_sorted(stats, type='niter', sortby='time')]
     words = []
